@@ -71,9 +71,12 @@ def merge_results(rs):
            'vccs': (sum((r.get('vccs') or (0, 0))[0] for r in rs), sum((r.get('vccs') or (0, 0))[1] for r in rs)),
            'solver_s': sum(r.get('solver_s', 0) or 0 for r in rs), 'nprops': sum(r.get('nprops', 0) for r in rs),
            'raw_tail': rs[-1]['raw_tail'], 'traces': {}}
-    for r in rs:
-        out['failed'] += r['failed']
-        out['traces'].update(r.get('traces', {}))
+    for i, r in enumerate(rs):
+        # one counterexample per failed assertion AND per sub-query (a known finding in one sub-query must not hide a
+        # different violation of the same assertion in another)
+        tag = '#%d' % i if len(rs) > 1 else ''
+        out['failed'] += [(pid + tag, desc) for pid, desc in r['failed']]
+        out['traces'].update({pid + tag: t for pid, t in r.get('traces', {}).items()})
         if r['verdict'] in ('error', 'timeout'): out['verdict'] = r['verdict']; out['raw_tail'] = r['raw_tail']
     if out['verdict'] == 'success' and out['failed']: out['verdict'] = 'failed'
     return out
@@ -111,12 +114,13 @@ def attempt(job, strat, timeout):
     return merge_results(rs)
 
 
-def run_job(job):
+def run_job(job, force=None):
     u = job.unit
     key = '%s|be%s|p%d' % (u.name, u.be, job.h)
     base = job.strats or STRATS
     first = HINTS.get(key, base[0])
     order = [first] + [x for x in base if x != first]
+    if force: order = [force]; job.cex = []
     tried = []
     r = None
     for strat in order:
@@ -159,6 +163,7 @@ def match_known(known, prop, rec):
         if k.get('conf_re') and not re.search(k['conf_re'], rec['conf']): continue
         if k.get('label_re') and not re.search(k['label_re'], rec['label']): continue
         if k.get('kinds') is not None and rec['inputs'] is not None and rec.get('kind') not in k['kinds']: continue
+        if k.get('inputs_eq') and (rec['inputs'] is None or any(int(i) >= len(rec['inputs']) or rec['inputs'][int(i)] != v for i, v in k['inputs_eq'].items())): continue
         return k
     return None
 
@@ -202,6 +207,17 @@ class Check:
         t = time.time()
         with cf.ThreadPoolExecutor(NPAR) as ex:
             list(ex.map(run_job, s.jobs))
+        # a failed query in a configuration for which an open known finding is registered: re-run it split as finely as possible
+        # (per event kind, reference path, copy mode, driven machine) so that every sub-query gets its own counterexample and
+        # the known finding cannot mask a different violation
+        known = [k for k in load_known() if k.get('status') == 'open' and k['property'] == s.prop]
+        redo = [j for j in s.jobs if j.res['verdict'] == 'failed' and 'G' not in j.res.get('strategy', 'n') and
+                any((not k.get('program') or k['program'] == j.unit.name) and (not k.get('backends') or j.unit.be in k['backends'])
+                    and (not k.get('conf_re') or re.search(k['conf_re'], j.unit.index[j.h]['conf'])) for k in known)]
+        if redo:
+            log('[%s] %d failed queries in configurations with a registered known finding are re-run split (strategy nkG)' % (s.prop, len(redo)))
+            with cf.ThreadPoolExecutor(NPAR) as ex:
+                list(ex.map(lambda j: run_job(j, force='nkG'), redo))
         s.t_solve = time.time() - t
 
     def finish(s, samples_extra=None):
